@@ -483,6 +483,14 @@ def simulate(rng, tmp, p):
                     counters_[k] = counters_.get(k, 0) + 1
                 newgroups.setdefault("%s_run%d" % (g, part_of[r["name"]]), []).append(r)
         groups = newgroups
+    if p.get("names_per_sample"):
+        # one file holding several samples (read groups) whose reads are numbered independently: names recur across samples
+        cnt = {}
+        for r in sim.reads:
+            if r["name"] not in rename:
+                k = cnt.get(r["sample"], 0)
+                cnt[r["sample"]] = k + 1
+                rename[r["name"]] = "read%d" % k
     sim.bam_names = rename
     sim.bams = []
     for g, reads in groups.items():
